@@ -26,8 +26,8 @@ import (
 // and the reply class, the generation table and the wallet contents are observed after each.
 
 const (
-	sessTimeout = 900 * time.Millisecond
-	sessMargin  = 120 * time.Millisecond
+	sessTimeout = 1100 * time.Millisecond
+	sessMargin  = 250 * time.Millisecond
 )
 
 type sessEvent struct {
